@@ -428,7 +428,7 @@ func TestC08(t *testing.T) {
 
 	// the fence under schedules the harness owns: requests on an entry while it is
 	// being unlinked, removed, renamed over or re-created (engine of C07)
-	schedSubCheck(h, env.PerShard(env.Pick(1600, 80000)), []string{"f", "k", "e", "e", "fnew", "knew", "create", "create"}, keepC08)
+	schedSubCheck(h, env.PerShard(env.Pick(3200, 80000)), []string{"f", "k", "e", "e", "fnew", "knew", "create", "create"}, keepC08)
 
 	alpha := c08Alphabet()
 	enumerate := func(label string, setup, depth int, native bool, al []*refcodec.Msg) bool {
